@@ -207,13 +207,14 @@ def run(tier, seed):
     rep.rule = ("random histories of insert batches / DELETE WHERE p / compaction passes / reopen on 1-2 tables (primary key "
                 "first, in the middle, or none; low-cardinality data so compaction picks dictionary encoding) over 4 layouts; "
                 "distinct non-trivial = histories in which at least one compaction merged row-sets after a delete removed rows")
-    tot = dict(compactions=0, outputs=0, deletes=0, deleted_rows=0, reopens=0, steps=0, vacuumed=0)
+    tot = dict(compactions=0, outputs=0, deletes=0, deleted_rows=0, reopens=0, steps=0, vacuumed=0, range_reads=0)
     for res in parallel_map(run_history, [(seed, i, nsteps) for i in range(n)]):
         rep.evaluations += res["steps"]
         tot["compactions"] += res["compactions"]
         tot["outputs"] += res["compaction_outputs"]
         tot["deletes"] += res["deletes"]
         tot["deleted_rows"] += res["deleted_rows"]
+        tot["range_reads"] += res.get("range_reads", 0)
         tot["reopens"] += res["reopens"]
         tot["vacuumed"] += res["vacuumed"]
         if res["inconclusive"]:
@@ -230,6 +231,8 @@ def run(tier, seed):
                         rowsets_vacuumed=tot["vacuumed"])
     rep.floor("compactor commits observed (hook event)", tot["compactions"], n // 2)
     rep.floor("rows deleted", tot["deleted_rows"], n)
+    rep.coverage["key_range_reads_compared_with_the_model"] = tot["range_reads"]
+    rep.floor("key-range reads judged", tot["range_reads"], n)
     rep.assumptions = ["compaction passes are driven by the engine's own 1 s timer on a paused tokio clock (one pass per virtual second)",
                        "key-order of a primary-key table is observed through SELECT * (the scan executor requests the ordered merge scan)"]
     if tier == "thorough" and not os.environ.get("VERIF_OVERLAY"):
